@@ -153,6 +153,21 @@ pub fn c04_case(run_seed: u64, nonce: u64, replay: Option<Vec<u32>>) -> CaseOutc
         Some(v) => Tape::replay(v),
         None => Tape::search(run_seed),
     };
+    // A panic anywhere in the code under test is a violation of this run, not a harness crash.
+    match catch_unwind(AssertUnwindSafe(|| c04_body(&mut t, nonce))) {
+        Ok(out) => out,
+        Err(p) => {
+            let msg = p.downcast_ref::<&str>().map(|s| s.to_string()).or_else(|| p.downcast_ref::<String>().cloned()).unwrap_or_else(|| "panic".into());
+            let mut out = CaseOutcome::default();
+            out.tape = t.consumed_values();
+            out.nontrivial = true;
+            out.violations.push(viol("panic", format!("the code under test panicked: {}", msg)));
+            out
+        }
+    }
+}
+
+fn c04_body(t: &mut Tape, nonce: u64) -> CaseOutcome {
     let sizes = storage::all_sizes();
     // Bias toward the small sizes where every byte is a boundary.
     let frame_len = if t.flag(70, 100, "small_frame") {
@@ -174,7 +189,7 @@ pub fn c04_case(run_seed: u64, nonce: u64, replay: Option<Vec<u32>>) -> CaseOutc
     let n_programs = 1 + t.choose(3, "n_programs");
 
     'programs: for prog in 0..n_programs {
-        let d = dirty_slot(&mut t, pl, &mut tx, &mut rx, nonce);
+        let d = dirty_slot(t, pl, &mut tx, &mut rx, nonce);
         if d > 0 {
             dirtied += 1;
         }
@@ -804,6 +819,21 @@ pub fn c05_case(run_seed: u64, nonce: u64, replay: Option<Vec<u32>>) -> CaseOutc
         Some(v) => Tape::replay(v),
         None => Tape::search(run_seed),
     };
+    // A panic anywhere in the code under test is a violation of this run, not a harness crash.
+    match catch_unwind(AssertUnwindSafe(|| c05_body(&mut t, nonce))) {
+        Ok(out) => out,
+        Err(p) => {
+            let msg = p.downcast_ref::<&str>().map(|s| s.to_string()).or_else(|| p.downcast_ref::<String>().cloned()).unwrap_or_else(|| "panic".into());
+            let mut out = CaseOutcome::default();
+            out.tape = t.consumed_values();
+            out.nontrivial = true;
+            out.violations.push(viol("panic", format!("the code under test panicked: {}", msg)));
+            out
+        }
+    }
+}
+
+fn c05_body(t: &mut Tape, nonce: u64) -> CaseOutcome {
     let slots = t.pick(&[2usize, 1, 4], "slots");
     let frame_len = t.pick(&[64usize, 28, 40, 48, 100, 128, 60, 256], "frame_len");
     let store = storage::make(slots, frame_len).expect("menu");
@@ -858,7 +888,7 @@ pub fn c05_case(run_seed: u64, nonce: u64, replay: Option<Vec<u32>>) -> CaseOutc
     let mut held: Vec<ReceivedFrame<'static>> = Vec::new();
 
     let mut ctx = C05Ctx {
-        t: &mut t,
+        t: &mut *t,
         pl,
         nonce,
         out: &mut out,
